@@ -163,6 +163,31 @@ def obligations(tier):
                 return out
             add_g("decomposition._constrained_cp:initialize_constrained_parafac", f"N={N},init={init}", setup, call, post, dict(order=N, init=init),
                   "every initial factor is a proximal-operator output", assumptions=lambda I: [R <= n for n in dims(len(I["X"].shape))] if I["_S"].name == "sym" else [])
+        # ... also when the rank exceeds a mode size and the SVD factor of that mode is padded with random columns: the WHOLE factor, padding included, is what is projected
+        def setup_p(S, N=N):
+            n = dims(N)
+            return dict(_S=S, n=n, X=S.input("X", n))
+        def call_p(I, N=N):
+            S = I["_S"]
+            rec = []
+            inner = make_svd_stub(S, None)
+            def pad_stub(matrix, n_eigenvecs=None, **kw):
+                if S.name == "sym" and bool(G.SInt.lift(matrix.shape[0]) < n_eigenvecs):
+                    return inner(matrix, n_eigenvecs=matrix.shape[0], **kw)   # svd contract: at most min(shape) = rows singular triplets exist
+                return inner(matrix, n_eigenvecs=n_eigenvecs, **kw)
+            with stubbed(_cc, proximal_operator=prox_stub_factory(S, rec), svd_interface=pad_stub):
+                kt = _cc.initialize_constrained_parafac(I["X"], R if S.name == "sym" else I["X"].shape[0] + 2, init="svd", non_negative=True, random_state=0)
+            return dict(factors=list(kt.factors), rec=rec, rank=R if S.name == "sym" else I["X"].shape[0] + 2)
+        def post_p(S, I, r, N=N):
+            out = [("one projection per mode", len(r["rec"]), N)]
+            for m in range(N):
+                out.append((f"mode {m}: the initial factor is the output of proximal_operator(order={m})", (r["factors"][m] is r["rec"][m]["out"], r["rec"][m]["order"]), (True, m)))
+                out.append((f"mode {m}: the projected factor has all R columns", tuple(S.shape(r["factors"][m])), (S.shape(I["X"])[m], r["rank"])))
+            return out
+        from ..symint import sprod as _sprod
+        add_g("decomposition._constrained_cp:initialize_constrained_parafac", f"N={N},init=svd,rank > size of mode 0", setup_p, call_p, post_p, dict(order=N, init="svd", rank="exceeds mode 0"),
+              "every initial factor is a proximal-operator output",
+              assumptions=lambda I: ([I["n"][0] < R] + [R <= nk for nk in I["n"][1:]] + [I["n"][0] <= _sprod(I["n"][1:])]) if I["_S"].name == "sym" else [])
         # admm: every exit returns the prox output as primal variable
         # (the specification reaches admm as given by the caller: scalar, per-mode dict, per-mode list - the mode is selected by `order`)
         for spec_name, spec in ((("scalar", dict(simplex=1.0)), ("dict on the mode only", dict(simplex={1: 1.0})), ("list with holes", dict(non_negative=[None, True, None])),
